@@ -363,3 +363,47 @@ func TestReduce(t *testing.T) {
 	fmt.Println("=== reduced program (" + mode + ", " + want + ") ===")
 	fmt.Println(q.EgoSource())
 }
+
+// TestReduceEgo is TestReduce without the Go toolchain, for failures that only
+// one type mode shows: the predicate is "that mode still fails with the same
+// normalized error while dynamic mode (or relaxed, for a dynamic-mode failure)
+// runs without error".
+func TestReduceEgo(t *testing.T) {
+	path := os.Getenv("VERIF_REDUCE")
+	if path == "" {
+		t.Skip("VERIF_REDUCE not set")
+	}
+	b, err := os.ReadFile(path)
+	if err != nil {
+		t.Fatal(err)
+	}
+	var rf struct {
+		Sig  string `json:"sig"`
+		Case Case   `json:"case"`
+	}
+	if err := json.Unmarshal(b, &rf); err != nil {
+		t.Fatal(err)
+	}
+	mode := rf.Sig[strings.LastIndex(rf.Sig, "[")+1 : len(rf.Sig)-1]
+	other := "dynamic"
+	if mode == "dynamic" {
+		other = "relaxed"
+	}
+	p := rf.Case.Program
+	errOf := func(body, m string) string {
+		q := p
+		q.Body = body
+		e := egorun.Run(q.EgoSource(), egorun.Config{Types: m, Optimize: 0, EntryPoint: "main"})
+		return norm(egorun.StripPositions(e.CompileErr + e.RunErr))
+	}
+	want := errOf(p.Body, mode)
+	if want == "" {
+		t.Fatalf("no error in mode %s any more", mode)
+	}
+	test := func(body string) bool { return errOf(body, mode) == want && errOf(body, other) == "" }
+	red := proggen.ReduceLines(p.Body, 3000, test)
+	q := p
+	q.Body = red
+	fmt.Println("=== reduced program (" + mode + ", " + want + ") ===")
+	fmt.Println(q.EgoSource())
+}
